@@ -125,6 +125,19 @@ theorem splitGo_crlf (hb : Breaks brk) (xs : List (List Char)) (h : ∀ x ∈ xs
     simp only [List.reverse_nil, List.nil_append]
     rw [ih (fun y hy => h y (by simp [hy]))]
 
+/-- **the final newline is not information**: a text whose last line lacks its newline reads as the same lines as the text with
+    the newline added (for a last line that is not empty), whatever the separator set -/
+theorem splitGo_final_newline (hb : Breaks brk) (xs : List (List Char)) (last : List Char) (h : ∀ x ∈ xs, Clean brk x)
+    (hl : Clean brk last) (hne : last ≠ []) :
+    splitGo brk (fileOf xs ++ last) [] false = splitGo brk (fileOf (xs ++ [last])) [] false := by
+  rw [splitGo_joined hb xs last h hl hne, splitGo_fileOf hb (xs ++ [last])]
+  intro x hx
+  rcases List.mem_append.mp hx with hx | hx
+  · exact h x hx
+  · simp only [List.mem_singleton] at hx
+    subst hx
+    exact hl
+
 /-! ## option parsing -/
 
 inductive Kind | value | multi | flag
